@@ -1242,7 +1242,10 @@ class CompilerPassGatherCode(CompilerPass):
 
         for line in code.splitlines():
             cline = line.split("#")[0].strip()
-            label = cline[:-1] if cline.endswith(":") else None
+            # a label stands alone on its line ('s db Setting HASH("a:#b")' cut
+            # at '#' also ends with a colon)
+            is_label = cline.endswith(":") and len(cline.split()) == 1
+            label = cline[:-1] if is_label else None
             if label and label not in keep_labels:
                 label = cline[:-1]
                 label_map[label] = len(new_code)
